@@ -1,7 +1,9 @@
-(* Model of tonic/src/service/interceptor.rs (InterceptedService::call, ResponseFuture::poll)
-   with the pieces of request.rs (Request::from_http, into_http) and status.rs
-   (Status::into_http) it goes through.  Extensions, bodies and the inner service's response
-   are abstract types: the code moves them without looking inside. *)
+(* Model of tonic/src/service/interceptor.rs - InterceptedService (poll_ready, call),
+   ResponseFuture (poll), ResponseBody (poll_frame, size_hint, is_end_stream), InterceptorLayer -
+   with the pieces of request.rs (Request::from_http, into_parts, from_parts, into_http) and
+   status.rs (Status::into_http) it goes through.  Extensions, request bodies, the inner
+   service, its futures and its response bodies are abstract: the code moves them or delegates
+   to them without looking inside, so they are interfaces (records of functions over a state). *)
 From Verif Require Import Lib.Bytes Lib.Obs Lib.HeaderMap.
 From Verif Require Import Gen.StatusTables Model.Status Model.Metadata.
 Open Scope N_scope.
@@ -26,20 +28,70 @@ Definition request_into_http {E B} (r : t_request E B) (uri method : list N) (ve
     (sanitize_yes : bool) : http_request E B :=
   mkHttpReq method uri version (request_headers sanitize_yes (tr_md r)) (tr_ext r) (tr_msg r).
 
-(* interceptor.rs ResponseBody<B>: Empty | Wrap(B), with its http_body::Body impl:
-   poll_frame (here: the frames obtained by polling until None), is_end_stream, size_hint.
-   For Wrap they are the inner body's, given by the [inner_*] functions. *)
+(* ------------------------------------------------------------------ interfaces *)
+(* std::task::Poll *)
+Inductive poll (A : Type) : Type := PPending | PReady (a : A).
+Arguments PPending {A}.
+Arguments PReady {A} a.
+Definition poll_map {A B} (f : A -> B) (p : poll A) : poll B :=
+  match p with PPending => PPending | PReady a => PReady (f a) end.
+
+(* a Future over a state Fut: one poll gives a result and the next state *)
+Definition fut_impl (Fut Out : Type) : Type := Fut -> poll Out * Fut.
+
+(* http_body::Body over a state RB.  poll_frame: Pending / None / Some(Ok(frame)) / Some(Err);
+   size_hint: (lower, upper) *)
+Inductive pf (F Er : Type) : Type := PfPending | PfNone | PfFrame (f : F) | PfErr (e : Er).
+Arguments PfPending {F Er}.
+Arguments PfNone {F Er}.
+Arguments PfFrame {F Er} f.
+Arguments PfErr {F Er} e.
+Definition size_hint : Type := (N * option N)%type.
+Record body_impl (RB F Er : Type) : Type := mkBodyImpl {
+  bi_poll : RB -> pf F Er * RB; bi_end : RB -> bool; bi_hint : RB -> size_hint }.
+Arguments mkBodyImpl {RB F Er}.
+Arguments bi_poll {RB F Er}. Arguments bi_end {RB F Er}. Arguments bi_hint {RB F Er}.
+
+(* tower_service::Service over a state S.  poll_ready: Pending / Ready(Ok(())) = PReady (inl tt)
+   / Ready(Err e) = PReady (inr e); call hands out a future *)
+Record svc_impl (S Rq Err Fut : Type) : Type := mkSvc {
+  sv_ready : S -> poll (unit + Err) * S; sv_call : S -> Rq -> Fut * S }.
+Arguments mkSvc {S Rq Err Fut}.
+Arguments sv_ready {S Rq Err Fut}. Arguments sv_call {S Rq Err Fut}.
+
+(* ------------------------------------------------------------------ ResponseBody<B> *)
+(* enum ResponseBodyKind { Empty, Wrap(B) } and its http_body::Body impl *)
 Inductive response_body (RB : Type) : Type := RbEmpty | RbWrap (b : RB).
 Arguments RbEmpty {RB}.
 Arguments RbWrap {RB} b.
-Definition rb_frames {RB F} (inner_frames : RB -> list F) (b : response_body RB) : list F :=
-  match b with RbEmpty => [] | RbWrap x => inner_frames x end.
-Definition rb_is_end_stream {RB} (inner_end : RB -> bool) (b : response_body RB) : bool :=
-  match b with RbEmpty => true | RbWrap x => inner_end x end.
-(* size_hint().exact() *)
-Definition rb_size_exact {RB} (inner_size : RB -> option N) (b : response_body RB) : option N :=
-  match b with RbEmpty => Some 0 | RbWrap x => inner_size x end.
+Definition rb_poll_frame {RB F Er} (bi : body_impl RB F Er) (b : response_body RB)
+    : pf F Er * response_body RB :=
+  match b with
+  | RbEmpty => (PfNone, RbEmpty)
+  | RbWrap x => let '(r, x') := bi_poll bi x in (r, RbWrap x')
+  end.
+Definition rb_size_hint {RB F Er} (bi : body_impl RB F Er) (b : response_body RB) : size_hint :=
+  match b with RbEmpty => (0, Some 0) (* SizeHint::with_exact(0) *) | RbWrap x => bi_hint bi x end.
+Definition rb_is_end_stream {RB F Er} (bi : body_impl RB F Er) (b : response_body RB) : bool :=
+  match b with RbEmpty => true | RbWrap x => bi_end bi x end.
+Definition rb_impl {RB F Er} (bi : body_impl RB F Er) : body_impl (response_body RB) F Er :=
+  mkBodyImpl (rb_poll_frame bi) (rb_is_end_stream bi) (rb_size_hint bi).
 
+(* what a user of a body can do with it, in any order *)
+Inductive bop : Type := BPoll | BEnd | BHint.
+Inductive bobs (F Er : Type) : Type := OPoll (r : pf F Er) | OEnd (b : bool) | OHint (h : size_hint).
+Arguments OPoll {F Er} r.
+Arguments OEnd {F Er} b.
+Arguments OHint {F Er} h.
+Fixpoint body_run {RB F Er} (bi : body_impl RB F Er) (b : RB) (ops : list bop) : list (bobs F Er) :=
+  match ops with
+  | [] => []
+  | BPoll :: r => let '(x, b') := bi_poll bi b in OPoll x :: body_run bi b' r
+  | BEnd :: r => OEnd (bi_end bi b) :: body_run bi b r
+  | BHint :: r => OHint (bi_hint bi b) :: body_run bi b r
+  end.
+
+(* ------------------------------------------------------------------ responses *)
 (* what the caller of the intercepted service gets back: the inner service's error, or a
    response whose head is the inner service's (any type P) or the one Status::into_http builds *)
 Inductive resp_head (P : Type) : Type :=
@@ -52,20 +104,78 @@ Definition http_response (P RB : Type) : Type := (resp_head P * response_body RB
 Definition HTTP_200 : N := 200.
 Definition HTTP_11 : N := 11.      (* http::Response::new leaves the default version HTTP/1.1 *)
 
-(* an interceptor is any function Request<()> -> Result<Request<()>, Status> *)
-Definition interceptor (E : Type) : Type := t_request E unit -> t_request E unit + status.
+(* http::HeaderMap holds at most 24576 distinct names (MAX_SIZE = 32768 slots at a load factor
+   of 3/4); HeaderMap::extend / insert beyond that panic ("size overflows MAX_SIZE").  Repeated
+   values of one name live in a side table and are not limited.  Status::add_header only ever
+   adds names, so it panics iff the finished map would hold more names than that. *)
+Definition HEADER_MAP_MAX_NAMES : N := 24576.
+Definition names_count (m : hm) : N := N.of_nat (length (sorted_keys m)).
+(* Status::into_http::<()>(): Response::new, insert content-type, add_header(..).unwrap() *)
+Definition status_into_http (st : status) : res hm :=
+  match status_into_http_headers st with
+  | Val h => if HEADER_MAP_MAX_NAMES <? names_count h then Panic else Val h
+  | Panic => Panic
+  end.
 
-(* ResponseFuture::poll, Kind::Future: map_ok(|res| res.map(ResponseBody::wrap)) *)
+(* ------------------------------------------------------------------ ResponseFuture<F> *)
+(* enum Kind { Future(F), Status(Option<Status>) } *)
+Inductive rf_kind (Fut : Type) : Type := KFuture (f : Fut) | KStatus (s : option status).
+Arguments KFuture {Fut} f.
+Arguments KStatus {Fut} s.
+Definition response_future_future {Fut} (f : Fut) : rf_kind Fut := KFuture f.
+Definition response_future_status {Fut} (st : status) : rf_kind Fut := KStatus (Some st).
+
+(* map_ok(|res| res.map(ResponseBody::wrap)) *)
 Definition wrap_inner {Err P RB} (r : Err + (P * RB)) : Err + http_response P RB :=
   match r with
   | inl e => inl e
   | inr (p, b) => inr (HInner p, RbWrap b)
   end.
 
-(* InterceptedService::call followed by ResponseFuture::poll.  The first component is the list
-   of requests handed to the inner service (its call count is the length of that list). *)
-Definition intercepted_call {E B Err P RB} (f : interceptor E) (inner : http_request E B -> Err + (P * RB))
-    (req : http_request E B) : list (http_request E B) * res (Err + http_response P RB) :=
+(* ResponseFuture::poll *)
+Definition rf_poll {Fut Err P RB} (fp : fut_impl Fut (Err + (P * RB))) (k : rf_kind Fut)
+    : res (poll (Err + http_response P RB)) * rf_kind Fut :=
+  match k with
+  | KFuture f => let '(r, f') := fp f in (Val (poll_map wrap_inner r), KFuture f')
+  | KStatus s =>
+      (* status.take().unwrap().into_http::<()>() *)
+      match s with
+      | None => (Panic, KStatus None)
+      | Some st =>
+          match status_into_http st with
+          | Val h => (Val (PReady (inr (HStatus HTTP_200 HTTP_11 h, RbEmpty))), KStatus None)
+          | Panic => (Panic, KStatus None)
+          end
+      end
+  end.
+(* poll a future [n] times, whatever it answers *)
+Fixpoint fut_run {Fut Out} (fp : fut_impl Fut Out) (f : Fut) (n : nat) : list (poll Out) :=
+  match n with
+  | O => []
+  | S n' => let '(r, f') := fp f in r :: fut_run fp f' n'
+  end.
+Fixpoint rf_run {Fut Err P RB} (fp : fut_impl Fut (Err + (P * RB))) (k : rf_kind Fut) (n : nat)
+    : list (res (poll (Err + http_response P RB))) :=
+  match n with
+  | O => []
+  | S n' => let '(r, k') := rf_poll fp k in r :: rf_run fp k' n'
+  end.
+
+(* ------------------------------------------------------------------ InterceptedService<S, I> *)
+(* trait Interceptor { fn call(&mut self, Request<()>) -> Result<Request<()>, Status> }: any
+   FnMut, so a function of its own state IS *)
+Definition interceptor (IS E : Type) : Type :=
+  IS -> t_request E unit -> (t_request E unit + status) * IS.
+
+(* Service::poll_ready: self.inner.poll_ready(cx) *)
+Definition intercepted_poll_ready {IS SS Rq Err Fut} (inner : svc_impl SS Rq Err Fut) (s : IS * SS)
+    : poll (unit + Err) * (IS * SS) :=
+  let '(r, ss') := sv_ready inner (snd s) in (r, (fst s, ss')).
+
+(* Service::call *)
+Definition intercepted_call {IS SS E B Err Fut} (f : interceptor IS E)
+    (inner : svc_impl SS (http_request E B) Err Fut) (s : IS * SS) (req : http_request E B)
+    : rf_kind Fut * (IS * SS) :=
   let uri := rq_uri req in
   let method := rq_method req in
   let version := rq_version req in
@@ -73,16 +183,81 @@ Definition intercepted_call {E B Err P RB} (f : interceptor E) (inner : http_req
   let metadata := tr_md r in
   let extensions := tr_ext r in
   let msg := tr_msg r in
-  match f (mkReq metadata extensions tt) with
+  let '(out, is') := f (fst s) (mkReq metadata extensions tt) in
+  match out with
   | inl r' =>
       let req' := request_into_http (mkReq (tr_md r') (tr_ext r') msg) uri method version false in
-      ([req'], Val (wrap_inner (inner req')))
-  | inr st =>
-      (* Kind::Status: status.into_http::<()>() parts + ResponseBody::empty() *)
-      ([], match status_into_http_headers st with
-           | Val h => Val (inr (HStatus HTTP_200 HTTP_11 h, RbEmpty))
-           | Panic => Panic
-           end)
+      let '(fut, ss') := sv_call inner (snd s) req' in
+      (response_future_future fut, (is', ss'))
+  | inr st => (response_future_status st, (is', snd s))
+  end.
+
+(* InterceptedService::new / InterceptorLayer::layer: the wrapped service is a Service again *)
+Definition intercepted_service {IS SS E B Err Fut} (f : interceptor IS E)
+    (inner : svc_impl SS (http_request E B) Err Fut)
+    : svc_impl (IS * SS) (http_request E B) Err (rf_kind Fut) :=
+  mkSvc (intercepted_poll_ready inner) (intercepted_call f inner).
+
+(* any sequence of uses of a Service *)
+Inductive sop (Rq : Type) : Type := SReady | SCall (rq : Rq).
+Arguments SReady {Rq}.
+Arguments SCall {Rq} rq.
+Inductive sres (Err Fut : Type) : Type := RReady (r : poll (unit + Err)) | RCall (f : Fut).
+Arguments RReady {Err Fut} r.
+Arguments RCall {Err Fut} f.
+Fixpoint svc_run {S Rq Err Fut} (sv : svc_impl S Rq Err Fut) (s : S) (ops : list (sop Rq))
+    : list (sres Err Fut) * S :=
+  match ops with
+  | [] => ([], s)
+  | SReady :: r =>
+      let '(x, s') := sv_ready sv s in
+      let '(l, s'') := svc_run sv s' r in (RReady x :: l, s'')
+  | SCall rq :: r =>
+      let '(fu, s') := sv_call sv s rq in
+      let '(l, s'') := svc_run sv s' r in (RCall fu :: l, s'')
+  end.
+
+(* what the interceptor alone decides about a sequence of uses: a poll_ready is passed on, a
+   call is passed on with the rebuilt request or answered with the status *)
+Inductive verdict (E B : Type) : Type :=
+| VReady | VAccept (req' : http_request E B) | VReject (st : status).
+Arguments VReady {E B}.
+Arguments VAccept {E B} req'.
+Arguments VReject {E B} st.
+Fixpoint verdicts {IS E B} (f : interceptor IS E) (is : IS) (ops : list (sop (http_request E B)))
+    : list (verdict E B) * IS :=
+  match ops with
+  | [] => ([], is)
+  | SReady :: r => let '(l, is') := verdicts f is r in (VReady :: l, is')
+  | SCall req :: r =>
+      let '(out, is1) := f is (mkReq (from_headers (rq_headers req)) (rq_ext req) tt) in
+      let v := match out with
+               | inl r' => VAccept (mkHttpReq (rq_method req) (rq_uri req) (rq_version req)
+                                              (into_headers (tr_md r')) (tr_ext r') (rq_body req))
+               | inr st => VReject st
+               end in
+      let '(l, is') := verdicts f is1 r in (v :: l, is')
+  end.
+(* the uses of the inner service that result: a rejected call is absent *)
+Fixpoint inner_ops {E B} (vs : list (verdict E B)) : list (sop (http_request E B)) :=
+  match vs with
+  | [] => []
+  | VReady :: r => SReady :: inner_ops r
+  | VAccept q :: r => SCall q :: inner_ops r
+  | VReject _ :: r => inner_ops r
+  end.
+(* the caller's results, given the inner service's *)
+Fixpoint outer_results {E B Err Fut} (vs : list (verdict E B)) (ir : list (sres Err Fut))
+    : list (sres Err (rf_kind Fut)) :=
+  match vs with
+  | [] => []
+  | VReject st :: r => RCall (response_future_status st) :: outer_results r ir
+  | _ :: r =>
+      match ir with
+      | RReady x :: ir' => RReady x :: outer_results r ir'
+      | RCall fu :: ir' => RCall (response_future_future fu) :: outer_results r ir'
+      | [] => []
+      end
   end.
 
 (* ------------------------------------------------------------------ scripted interceptors *)
@@ -94,7 +269,7 @@ Record action (E : Type) : Type := mkAction {
 Arguments mkAction {E}.
 Arguments a_fresh {E}. Arguments a_ops {E}. Arguments a_ext {E}. Arguments a_reject {E}.
 
-Definition interceptor_of {E} (a : action E) : interceptor E := fun r =>
+Definition act_apply {E} (a : action E) (r : t_request E unit) : t_request E unit + status :=
   match a_reject a with
   | Some st => inr st
   | None =>
@@ -102,34 +277,136 @@ Definition interceptor_of {E} (a : action E) : interceptor E := fun r =>
       let ext := match a_ext a with Some e => e | None => tr_ext r end in
       inl (mkReq md ext tt)
   end.
+Definition act_identity {E} : action E := mkAction false [] None None.
+(* an FnMut interceptor with a call counter: the n-th call (from 0) performs action n mod len *)
+Definition interceptor_of {E} (acts : list (action E)) : interceptor N E := fun n r =>
+  (act_apply (nth (N.to_nat (n mod N.of_nat (length acts))) acts act_identity) r, n + 1).
+
+(* ------------------------------------------------------------------ the harness's inner service *)
+(* extensions = (marker, tag), request body = bytes *)
+Definition ext_t : Type := option N * option (list N).
+Definition hreq : Type := http_request ext_t (list N).
+
+(* scripted response body: steps (is_end_stream, size_hint, what poll_frame answers) consumed
+   one per poll_frame - the first two are what the body reports while the step is at the head -
+   and the (is_end_stream, size_hint) it reports once the script is exhausted (poll_frame: None).
+   Frames: inl data / inr trailers; event tag 0 = Pending, 1 = frame, 2 = Err *)
+Definition sframe : Type := (list N + hm)%type.
+Definition sstep : Type := (bool * size_hint * (N * (sframe * list N)))%type.
+Definition script_body : Type := (list sstep * (bool * size_hint))%type.
+Definition script_poll (b : script_body) : pf sframe (list N) * script_body :=
+  match fst b with
+  | [] => (PfNone, b)
+  | (_, _, (t, (fr, e))) :: r =>
+      ((if t =? 0 then PfPending else if t =? 1 then PfFrame fr else PfErr e), (r, snd b))
+  end.
+Definition script_end (b : script_body) : bool :=
+  match fst b with [] => fst (snd b) | (e, _, _) :: _ => e end.
+Definition script_hint (b : script_body) : size_hint :=
+  match fst b with [] => snd (snd b) | (_, h, _) :: _ => h end.
+Definition script_bi : body_impl script_body sframe (list N) := mkBodyImpl script_poll script_end script_hint.
+
+(* the inner answer: Err(text) or (status code, headers) with a scripted body; its future is
+   Pending [n] times first *)
+Definition inner_answer : Type := (list N + ((N * hm) * script_body))%type.
+Definition sfut : Type := (N * inner_answer)%type.
+Definition sfut_poll : fut_impl sfut inner_answer := fun f =>
+  if fst f =? 0 then (PReady (snd f), f) else (PPending, (fst f - 1, snd f)).
+
+(* the recording service: a poll_ready script ((0,_) Pending, (1,_) Ready(Ok), (2,e) Ready(Err e);
+   Ready(Ok) once exhausted) and the log of everything it was asked *)
+Inductive rec_entry : Type := LReady | LCall (r : hreq).
+Definition rec_state : Type := (list (N * list N) * list rec_entry)%type.
+Definition rec_ready (s : rec_state) : poll (unit + list N) * rec_state :=
+  let log := snd s ++ [LReady] in
+  match fst s with
+  | [] => (PReady (inl tt), ([], log))
+  | (t, e) :: r => ((if t =? 0 then PPending else if t =? 1 then PReady (inl tt) else PReady (inr e)), (r, log))
+  end.
+Definition rec_call (pend : N) (ans : inner_answer) (s : rec_state) (r : hreq) : sfut * rec_state :=
+  ((pend, ans), (fst s, snd s ++ [LCall r])).
+Definition rec_svc (pend : N) (ans : inner_answer) : svc_impl rec_state hreq (list N) sfut :=
+  mkSvc rec_ready (rec_call pend ans).
 
 (* ------------------------------------------------------------------ observables *)
-(* harness instantiation: extensions = (marker, tag), body = bytes, inner response =
-   (status, headers, body) *)
-Definition ext_t : Type := option N * option (list N).
 Definition ext_obs (e : ext_t) : tr := Nd [oopt Nn (fst e); oopt Bs (snd e)].
-Definition req_obs (r : http_request ext_t (list N)) : tr :=
+Definition req_obs (r : hreq) : tr :=
   Nd [Bs (rq_method r); Bs (rq_uri r); Nn (rq_version r); hm_canon (rq_headers r);
       ext_obs (rq_ext r); Bs (rq_body r)].
-(* the inner answer of a case: code 0 = Err(text), otherwise status, headers, and a scripted
-   body (data, optional trailers) whose is_end_stream / size_hint are http_body's defaults *)
-Definition inner_resp : Type := N * (hm * (list N * option hm)).
-Definition script_body : Type := (list N * option hm)%type.
-Definition inner_of (resp : inner_resp) : list N + ((N * hm) * script_body) :=
-  let '(c, (h, (d, t))) := resp in
-  if c =? 0 then inl d else inr ((c, h), (d, t)).
-Definition body_obs (b : response_body script_body) : tr :=
-  Nd [ Nd (rb_frames (fun x : script_body => [Nd [Bs (fst x); oopt hm_canon (snd x)]]) b);
-       obool (rb_is_end_stream (fun _ => false) b);
-       oopt Nn (rb_size_exact (fun _ => None) b) ].
+Definition entry_obs (e : rec_entry) : tr :=
+  match e with LReady => Nd [Nn 0] | LCall r => Nd [Nn 1; req_obs r] end.
+Definition ready_obs (p : poll (unit + list N)) : tr :=
+  match p with
+  | PPending => Nd [Nn 0]
+  | PReady (inl _) => Nd [Nn 1]
+  | PReady (inr e) => Nd [Nn 2; Bs e]
+  end.
+Definition hint_obs (h : size_hint) : tr := Nd [Nn (fst h); oopt Nn (snd h)].
+Definition pf_obs (r : pf sframe (list N)) : tr :=
+  match r with
+  | PfPending => Nd [Nn 0]
+  | PfNone => Nd [Nn 1]
+  | PfFrame (inl d) => Nd [Nn 2; Bs d]
+  | PfFrame (inr t) => Nd [Nn 3; hm_canon t]
+  | PfErr e => Nd [Nn 4; Bs e]
+  end.
+Definition bobs_obs (o : bobs sframe (list N)) : tr :=
+  match o with
+  | OPoll r => pf_obs r
+  | OEnd b => Nd [Nn 5; obool b]
+  | OHint h => Nd [Nn 6; hint_obs h]
+  end.
+Definition bop_of (n : N) : bop := if n =? 0 then BPoll else if n =? 1 then BEnd else BHint.
+Definition body_obs (bops : list N) (b : response_body script_body) : tr :=
+  olist bobs_obs (body_run (rb_impl script_bi) b (map bop_of bops)).
 
-Definition obs_intercept (a : action ext_t) (resp : inner_resp) (req : http_request ext_t (list N)) : tr :=
-  let '(calls, out) := intercepted_call (interceptor_of a) (fun _ => inner_of resp) req in
-  Nd [ olist req_obs calls;
-       match out with
-       | Panic => Nd [Nn 99]
-       | Val (inl e) => Nd [Nn 3; Bs e]
-       | Val (inr (HInner (c, h), b)) => Nd [Nn 1; Nn c; hm_canon h; body_obs b]
-       | Val (inr (HStatus c v h, b)) =>
-           Nd [Nn 2; Nn c; Nn v; hm_canon h; oopt status_obs (from_header_map h); body_obs b]
-       end ].
+(* one poll of a ResponseFuture as the caller sees it; the body of a ready response is then
+   used according to [bops] *)
+Definition poll_obs (bops : list N) (r : res (poll (list N + http_response (N * hm) script_body))) : tr :=
+  match r with
+  | Panic => Nd [Nn 99]
+  | Val PPending => Nd [Nn 0]
+  | Val (PReady (inl e)) => Nd [Nn 3; Bs e]
+  | Val (PReady (inr (HInner (c, h), b))) => Nd [Nn 1; Nn c; hm_canon h; body_obs bops b]
+  | Val (PReady (inr (HStatus c v h, b))) =>
+      Nd [Nn 2; Nn c; Nn v; hm_canon h; oopt status_obs (from_header_map h); body_obs bops b]
+  end.
+
+(* a case: the interceptor's actions, the recorder's poll_ready script, the inner future's
+   number of Pendings and answer, how often the returned future is polled (accepted / rejected
+   call) and how the response body is used; then the uses of the service (None = poll_ready) *)
+Record cfg : Type := mkCfg {
+  c_ready : list (N * list N); c_pend : N; c_answer : inner_answer;
+  c_polls_acc : N; c_polls_rej : N; c_bops : list N }.
+Definition sres_obs (c : cfg) (r : sres (list N) (rf_kind sfut)) : tr :=
+  match r with
+  | RReady p => Nd [Nn 0; ready_obs p]
+  | RCall k =>
+      let n := match k with KFuture _ => c_polls_acc c | KStatus _ => c_polls_rej c end in
+      Nd [Nn 1; olist (poll_obs (c_bops c)) (rf_run sfut_poll k (N.to_nat n))]
+  end.
+Definition sop_of (o : option hreq) : sop hreq := match o with None => SReady | Some r => SCall r end.
+Definition obs_seq (acts : list (action ext_t)) (c : cfg) (ops : list (option hreq)) : tr :=
+  let '(results, (_, (_, log))) :=
+    svc_run (intercepted_service (interceptor_of acts) (rec_svc (c_pend c) (c_answer c)))
+            (0, (c_ready c, [])) (map sop_of ops) in
+  Nd [ olist (sres_obs c) results; olist entry_obs log ].
+
+(* header-map capacity: a status whose metadata is [n] distinct names (ascending, so that
+   sorted_keys is linear on it); the observable keeps only the size of the header map *)
+Definition cap_name (i : N) : list N :=
+  [107; 97 + (i / 17576) mod 26; 97 + (i / 676) mod 26; 97 + (i / 26) mod 26; 97 + i mod 26].
+Fixpoint cap_md_from (n : nat) (i : N) : hm :=
+  match n with O => [] | S k => (cap_name i, [118]) :: cap_md_from k (i + 1) end.
+Definition cap_md (n : N) : hm := cap_md_from (N.to_nat n) 0.
+Definition obs_cap (n code : N) (msg details : list N) (polls : N) : tr :=
+  let st := mkStatus code msg details (cap_md n) in
+  let '(k, _) := intercepted_call (interceptor_of [mkAction false [] None (Some st)])
+                                  (rec_svc 0 (inl [])) (0, ([], [])) (mkHttpReq [] [] 11 [] (None, None) []) in
+  olist (fun r => match r with
+                  | Panic => Nd [Nn 99]
+                  | Val (PReady (inr (HStatus c v h, RbEmpty))) =>
+                      Nd [Nn 2; Nn c; Nn v; Nn (names_count h); Nn (N.of_nat (length h))]
+                  | _ => Nd [Nn 98]
+                  end)
+        (rf_run sfut_poll k (N.to_nat polls)).
